@@ -13,8 +13,9 @@ parametric in the analysis of ONE compile command from a fresh `Platform`
 warnings it logs; an exception aborts the whole run).  The only state carried
 from one command to the next is the accumulated association
 (`ParserState.maps`: node ↦ set of platform names, which only grows) and the log.
-The parse cache `ParserState.trees` is *not* part of this model: it is meant to be
-a transparent cache (see `Model/FindInst.lean` for the gap statement).
+The parse cache `ParserState.trees` is *not* part of this model: `findS` below threads an
+arbitrary extra state, and `Model/FindCache.lean` instantiates it with the explicit parse cache
+(transparency: `C08.cache_transparent_partial`, `C08.find_cached_eq_findG_partial`).
 
 Core Lean only (runs in the native driver).
 -/
